@@ -182,13 +182,13 @@ impl Property for C06 {
     fn cases(&self, tier: Tier) -> u64 {
         match tier {
             Tier::Quick => 8_000,
-            Tier::Thorough => 300_000,
+            Tier::Thorough => 4_000_000,
         }
     }
     fn min_nontrivial(&self, tier: Tier) -> u64 {
         match tier {
             Tier::Quick => 2_000,
-            Tier::Thorough => 80_000,
+            Tier::Thorough => 1_000_000,
         }
     }
     fn rule(&self) -> &'static str {
